@@ -7,7 +7,7 @@
     PostgreSQL planners).  *)
 From Coq Require Import List NArith ZArith Bool.
 From Atlas Require Import Base.Bytes Qual.Builder Qual.BuilderProofs Qual.Scope Qual.ScopeProofs
-  Qual.RefSkeleton Qual.RefSkeletonProofs Qual.Lexq Qual.LexqProofs Qual.Replay Qual.ReplayProofs.
+  Qual.RefSkeleton Qual.RefSkeletonProofs Qual.Lexq Qual.LexqProofs Qual.Replay Qual.ReplayProofs Qual.ChainEnd.
 Import ListNotations.
 Open Scope N_scope.
 
@@ -132,6 +132,24 @@ Theorem C16_one_identifier_call :
   exists pre, out (mayQualify b s top children) = out b ++ pre /\
     lex_chain (qo b) (qc b) pre = Some (q :: top :: children, [SP]).
 Proof. exact mayQualify_reads_back. Qed.
+
+(** (iii') ... and for a qualifying call ANYWHERE in a call sequence (1a + 1i): whatever is
+    called later -- with non-empty names in the later qualifying calls, the caveat of 1a -- the
+    byte after the chain is a separator (' ', ',', newline, ')', single quote, '('), never a
+    '.', so the server reads exactly the emitted chain: under qualifier [q] it is [q :: names]
+    (1b), the requested qualifier as ONE quoted identifier in front of the reference. *)
+Theorem C16_one_identifier_sequence :
+  forall (b : builder) (ops1 : list op) (o : op) (ops2 : list op) (l : list bytes),
+  let b1 := run b ops1 in
+  panicked b1 = false ->
+  emitted_chain (bschema b1) o = Some l ->
+  wf_op o -> Forall wf_op ops2 ->
+  ~ sepA (qc b1) -> qc b1 <> DOT ->
+  Forall (quote_free (qc b1)) l ->
+  exists post,
+    out (run b (ops1 ++ o :: ops2)) = out b1 ++ render_chain (qo b1) (qc b1) l ++ post /\
+    lex_chain (qo b1) (qc b1) (render_chain (qo b1) (qc b1) l ++ post) = Some (l, post).
+Proof. exact builder_reads_back. Qed.
 
 (** (iv) the specification is satisfiable: the spelling with doubled quote characters
     reads back for EVERY name (what a repaired [Ident] would write). *)
@@ -291,6 +309,7 @@ Print Assumptions C16_one_identifier_refuted.
 Print Assumptions C16_one_identifier_exact.
 Print Assumptions C16_one_identifier_except.
 Print Assumptions C16_one_identifier_call.
+Print Assumptions C16_one_identifier_sequence.
 Print Assumptions C16_quoted_chain_reads_back.
 Print Assumptions C16_pg_same_namespace_refuted.
 Print Assumptions C16_pg_same_namespace_except.
@@ -444,3 +463,19 @@ Example ex_replay :
   Planner_plan never false (Some []) 0 n_dev n_app [] [t1; t2] [t2] = PPlanned /\
   Planner_plan never false (Some []) 0 n_dev n_app [] [t1; t2] [t1; t2] = PNoPlan.
 Proof. repeat split; vm_compute; reflexivity. Qed.
+
+(* C16_one_identifier_sequence: ALTER TABLE <t> ( <t.c> ) , -- the chain of the first call is
+   followed by " (" and is read as [acme.v2; my t]; the second one by ")" after the comma rewrite *)
+Example ex_one_identifier_sequence :
+  let b := new_builder 34 34 (Some acme_v2) [] in
+  let ops1 := [OP [[65]]] in
+  let o := OTable (mkObj (Some m_) my_t) in
+  let ops2 := [OWrapOpen; OTableResource (mkObj (Some m_) my_t) c_; OWrapClose; OComma] in
+  lex_chain 34 34 (skipn (length (out (run b ops1))) (out (run b (ops1 ++ o :: ops2)))) =
+    Some ([acme_v2; my_t], [SP; LP] ++ render_chain 34 34 [acme_v2; my_t; c_] ++ [RP; CM; SP]) /\
+  Forall wf_op ops2 /\ ~ sepA 34.
+Proof.
+  split; [vm_compute; reflexivity|]. split.
+  - repeat constructor; discriminate.
+  - unfold sepA, SP, CM, NLc, RP, SQ, LP. intros [H|[H|[H|[H|[H|H]]]]]; discriminate.
+Qed.
